@@ -110,6 +110,7 @@ Proof.
   - apply REs_one. apply (RElem [32] [34; 97; 34] _ []); [apply RWS_char; [tauto|constructor]| |constructor].
     apply RV_string. apply (RStr [97] [97]); [apply RB_raw; [discriminate|discriminate|discriminate|constructor]|reflexivity].
 Qed.
+Print Assumptions C02_example_rfc_document.
 
 (* RFC 8259 requires the text to be UTF-8, the grammar requires the denoted string to be UTF-8: for the bytes between
    the quotes of any string literal of the grammar the two conditions coincide (escapes are ASCII in the text and whole
@@ -145,8 +146,10 @@ Proof.
   apply (B_lone_high [92; 117; 68; 56; 48; 48] [68; 56; 48; 48] 55296 [] []); [apply U_plain; reflexivity|reflexivity|reflexivity|].
   apply B_end.
 Qed.
+Print Assumptions C02_example_string_derivation.
 Example C02_example_string_parsed : parse_json_string (ex_body ++ [34; 58]) = Ok (ex_body_meaning, [58]).
 Proof. vm_compute. reflexivity. Qed.
+Print Assumptions C02_example_string_parsed.
 
 (* 1.5e3 and 1E-2 are doubles, -0 is the signed integer 0, 2^64 no longer fits and becomes a double, 1e400 is +infinity *)
 Example C02_example_number_derivations :
@@ -170,6 +173,7 @@ Proof.
       [apply Int_nonzero; [reflexivity|discriminate|constructor]|constructor|
        apply (Exp_some 101 [] false [52; 48; 48]); [tauto|constructor|discriminate|apply D; reflexivity]].
 Qed.
+Print Assumptions C02_example_number_derivations.
 
 (* {"a":1,\x0C"a":[<tab>] <form feed>}: the four characters \x0C before a token, a duplicate key (the last one wins), a tab inside an empty
    array, a space and a raw form feed before the closing brace: derivation by hand, and the parser's answer *)
@@ -190,8 +194,10 @@ Proof.
     + apply (Elem [] [91; 9; 93] _ [32; 12]); [constructor| |apply WS_rfc; [tauto|apply WS_form_feed; constructor]].
       apply (V_empty_array [9]). apply WS_rfc; [tauto|constructor].
 Qed.
+Print Assumptions C02_example_document_derivation.
 Example C02_example_document_parsed : parse_value ex_small = Ok (VObj [([97], VArr [])]).
 Proof. vm_compute. reflexivity. Qed.
+Print Assumptions C02_example_document_parsed.
 
 (* a larger text with every feature at once: escaped and raw relaxed whitespace between tokens, every escape kind, a
    surrogate pair, \u{00E9}, fraction / exponent numbers, -0, integers beyond u64 and at the i64 limit, duplicate keys,
@@ -207,6 +213,7 @@ Definition ex_large_value : value :=
                                 VNum (NFloat 4895412794951729152); VNum (NInt (-9223372036854775808))])].
 Example C02_example_large_parsed : parse_value ex_large = Ok ex_large_value.
 Proof. vm_compute. reflexivity. Qed.
+Print Assumptions C02_example_large_parsed.
 Example C02_example_large_derivable : jtext ex_large ex_large_value.
 Proof. apply C02_nothing_else_is_accepted. exact C02_example_large_parsed. Qed.
 
@@ -215,6 +222,7 @@ Example C02_example_rejections :
   map parse_value [[34; 92; 117; 123; 49; 70; 54; 48; 48; 125; 34]; [48; 49]; [49; 46]; [46; 53]; [43; 49]; [91; 49; 44; 93]; [92; 102; 49]]
   = [Err EOther; Err EOther; Err EOther; Err EOther; Err EOther; Err EOther; Err EOther].
 Proof. vm_compute. reflexivity. Qed.
+Print Assumptions C02_example_rejections.
 Print Assumptions C02_example_large_derivable.
 (* "every other number rounded to the nearest double ... numbers beyond the double range becoming infinities": the exact
    integer algorithm Decimal.round_dec that the model uses for this is Flocq's IEEE-754 binary64 round-to-nearest-even
